@@ -115,6 +115,7 @@ pub fn one_case(kind: &str, si: &gen::SchemaInfo, input: &J, out: &mut Out) {
         }
         "validate" | "purity" => crate::valcases::validate_case(si, input.as_str().unwrap(), &tmpdir(), out),
         "c03" => crate::valcases::termination_case(si, input.as_str().unwrap(), &tmpdir(), "replay", out),
+        "c01" | "c02" | "c14" => crate::valcases::accept_case(si, input.as_str().unwrap(), &tmpdir(), json!({"family": "replay"}), out),
         "c05" => crate::valcases::merge_case(si, input.as_str().unwrap(), &tmpdir(), json!({"family": "replay", "group": 0}), out),
         "c04" | "c10" | "c09" | "c11" | "c06" | "c07" | "c08" => crate::valcases::rules_case(si, input.as_str().unwrap(), &crate::valcases::RULES, &tmpdir(), out),
         "ext" => {
@@ -244,6 +245,83 @@ pub fn generate(kind: &str, thorough: bool, seed: u64, corpus: &str, out: &mut O
                 let si = gen::SchemaInfo::new(&format!("random{}", i), &gen::random_schema(&mut rng));
                 out.schema(&si);
                 for t in random_docs(&si, &mut rng, 50, 5) { crate::valcases::rules_case(&si, &t, &rules, &tmp, out); }
+            }
+        }
+        "c01" => {
+            // documents the type-directed generator makes without deviating (most are spec-valid; the check
+            // judges only those the spec accepts), over the curated and random schemas
+            let tmp = tmpdir();
+            let mut sis = pool();
+            for i in 0..(6 * scale) { sis.push(gen::SchemaInfo::new(&format!("random{}", i), &gen::random_schema(&mut rng))); }
+            for si in &sis {
+                out.schema(si);
+                for t in corpus_docs(corpus, &si.name) { crate::valcases::accept_case(si, &t, &tmp, json!({"family": "corpus"}), out); }
+                for k in 0..(260 * scale) {
+                    let mut g = gen::DocGen::new(si, rng.fork(), 0, 2 + k % 4);
+                    let t = g.document();
+                    crate::valcases::accept_case(si, &t, &tmp, json!({"family": "valid-by-construction"}), out);
+                }
+            }
+            // valid usages of a nullable variable at a non-null location that declares a default (F13)
+            let sdl = format!("{}\ninput In {{ v: Int! = 2  w: [Int!]! = [1] }}\ntype Query {{ f(d: Int! = 1, l: [Int]! = [], o: In, plain: Int): Int }}\ndirective @dd(d: Int! = 1) on FIELD\n", schemas::PRELUDE);
+            let si = gen::SchemaInfo::new("locdefault", &sdl);
+            out.schema(&si);
+            for t in ["query ($x: Int) { f(d: $x) }", "query ($x: [Int]) { f(l: $x) }", "query ($x: Int) { f(o: {v: $x}) }", "query ($x: [Int!]) { f(o: {w: $x}) }",
+                      "query ($x: Int) { f @dd(d: $x) }", "query ($x: Int) { ...F } fragment F on Query { f(d: $x) }"] {
+                crate::valcases::accept_case(&si, t, &tmp, json!({"family": "location-default", "spec_valid": true}), out);
+            }
+            for t in ["query ($x: Int!) { f(d: $x) }", "query ($x: Int = 3) { f(d: $x) }", "query ($x: Int) { f(plain: $x) }", "{ f(d: 2, o: {v: 1, w: [1]}) }", "{ f }"] {
+                crate::valcases::accept_case(&si, t, &tmp, json!({"family": "location-default-control"}), out);
+            }
+        }
+        "c02" => {
+            // (a) the per-rule enumerators (every way each rule can be violated, at every site they cover), as whole-plan cases
+            let keep = if thorough { 2 } else { 9 };
+            crate::valcases::FULL_MODE.store(keep, std::sync::atomic::Ordering::Relaxed);
+            for k in ["c04", "c05", "c06", "c07", "c08", "c09", "c10", "c11"] { generate(k, false, seed ^ 0x5151, "", out); }
+            crate::valcases::FULL_MODE.store(0, std::sync::atomic::Ordering::Relaxed);
+            let tmp = tmpdir();
+            // (c) one violation at a time, at two nesting depths, over a small schema
+            let sdl = format!("{}\ninput In {{ req: Int!  opt: String }}\nenum E {{ X Y }}\ninterface P {{ a: Int }}\ntype T implements P {{ a: Int  b: String  t: T  g(i: Int, l: [Int!], o: In, r: Int!): Int }}\ntype V {{ v: Int }}\nunion U = T | V\ntype Query {{ a: Int  t: T  f(x: Int, r: Int!): Int  p: P  u: U }}\ntype Mutation {{ m: Int }}\ntype Subscription {{ s1: Int  s2: Int }}\ndirective @onField on FIELD\ndirective @onQuery on QUERY\n", schemas::PRELUDE);
+            let si1 = gen::SchemaInfo::new("single-violation", &sdl);
+            out.schema(&si1);
+            let singles: Vec<(&str, &str)> = vec![
+                ("UniqueOperationNames", "query A { a } query A { t { a } }"), ("UniqueOperationNames", "query A { a } mutation A { m }"),
+                ("LoneAnonymousOperation", "{ a } query B { a }"), ("LoneAnonymousOperation", "query B { a } { a }"),
+                ("SingleFieldSubscriptions", "subscription { s1 s2 }"), ("SingleFieldSubscriptions", "subscription S { ...F } fragment F on Subscription { s1 k: s1 }"),
+                ("KnownTypeNames", "{ t { ... on Nope { __typename } } }"), ("KnownTypeNames", "{ ...F } fragment F on Nope { __typename }"),
+                ("FragmentsOnCompositeTypes", "{ t { ... on E { __typename } } }"), ("FragmentsOnCompositeTypes", "{ t { t { ...F } } } fragment F on In { __typename }"),
+                ("LeafFieldSelections", "{ t }"), ("LeafFieldSelections", "{ t { t { t } } }"), ("LeafFieldSelections", "{ p }"),
+                ("FieldsOnCorrectType", "{ nope }"), ("FieldsOnCorrectType", "{ t { t { nope } } }"), ("FieldsOnCorrectType", "{ p { ... on T { a } b } }"),
+                ("UniqueFragmentNames", "{ ...F } fragment F on Query { a } fragment F on Query { a }"),
+                ("KnownFragmentNames", "{ ...Nope }"), ("KnownFragmentNames", "{ t { t { ...Nope } } }"),
+                ("NoUnusedFragments", "{ a } fragment F on Query { a }"), ("NoUnusedFragments", "{ ...G } fragment G on Query { a } fragment F on T { a }"),
+                ("OverlappingFieldsCanBeMerged", "{ t { x: a x: b } }"), ("OverlappingFieldsCanBeMerged", "{ t { t { a } } t { t { a: b } } }"), ("OverlappingFieldsCanBeMerged", "{ t { g(i: 1, r: 1) g(i: 2, r: 1) } }"),
+                ("NoFragmentsCycle", "{ ...F } fragment F on Query { a ...F }"), ("NoFragmentsCycle", "{ t { ...A } } fragment A on T { a ...B } fragment B on T { b ...A }"),
+                ("PossibleFragmentSpreads", "{ t { ... on V { v } } }"), ("PossibleFragmentSpreads", "{ t { t { ...F } } } fragment F on Query { a }"),
+                ("NoUnusedVariables", "query ($v: Int) { a }"), ("NoUnusedVariables", "query ($v: Int, $w: Int) { t { g(i: $v, r: 1) } }"),
+                ("NoUndefinedVariables", "{ f(x: $v, r: 1) }"), ("NoUndefinedVariables", "query ($w: Int) { ...F f(x: $w, r: 1) } fragment F on Query { t { g(l: [1, $v], r: 1) } }"),
+                ("KnownArgumentNames", "{ f(zz: 1, r: 1) }"), ("KnownArgumentNames", "{ t { t { g(zz: 1, r: 1) } } }"), ("KnownArgumentNames", "{ a @skip(if: true, zz: 1) }"),
+                ("UniqueArgumentNames", "{ f(x: 1, x: 1, r: 1) }"), ("UniqueArgumentNames", "{ a @skip(if: true, if: true) }"),
+                ("UniqueVariableNames", "query ($v: Int, $v: Int) { f(x: $v, r: 1) }"),
+                ("ProvidedRequiredArguments", "{ f(x: 1) }"), ("ProvidedRequiredArguments", "{ t { t { g } } }"), ("ProvidedRequiredArguments", "{ a @skip }"),
+                ("KnownDirectives", "{ a @nope }"), ("KnownDirectives", "{ a @onQuery }"), ("KnownDirectives", "query @onField { a }"),
+                ("UniqueDirectivesPerLocation", "{ a @onField @onField }"), ("UniqueDirectivesPerLocation", "{ t { t { a @skip(if: true) @skip(if: false) } } }"),
+                ("VariablesInAllowedPosition", "query ($v: String) { f(x: $v, r: 1) }"), ("VariablesInAllowedPosition", "query ($v: Int) { f(r: $v) }"), ("VariablesInAllowedPosition", "query ($v: [Int]) { t { g(l: $v, r: 1) } }"),
+                ("ValuesOfCorrectType", "{ f(x: \"s\", r: 1) }"), ("ValuesOfCorrectType", "{ t { g(o: {opt: \"x\"}, r: 1) } }"), ("ValuesOfCorrectType", "{ t { t { g(l: [1, null], r: 1) } } }"), ("ValuesOfCorrectType", "{ f(r: null) }"),
+                ("VariablesAreInputTypes", "query ($v: T) { a }"),
+            ];
+            for (rule, t) in singles.iter() {
+                crate::valcases::accept_case(&si1, t, &tmp, json!({"family": "single-violation", "violates": rule, "spec_invalid": true}), out);
+            }
+            // (b) deviations injected into type-directed documents: 3 %, 10 %, 30 % per choice point
+            for si in pool() {
+                out.schema(&si);
+                for k in 0..(150 * scale) {
+                    let mut g = gen::DocGen::new(&si, rng.fork(), [3, 10, 30][k % 3], 2 + k % 4);
+                    let t = g.document();
+                    crate::valcases::accept_case(&si, &t, &tmp, json!({"family": "noise-injection"}), out);
+                }
             }
         }
         "c03" => {
